@@ -309,7 +309,11 @@ def conv_code(u, only=None):
             fields = record_fields(u, m)
             decl.append('%s to_real(const %s &a);' % (rt, m))
             decl.append('%s from_real(const %s &a);' % (m, rt))
-            out.append('%s to_real(const %s &a) { return %s(%s); }' % (rt, m, rt, ', '.join('to_real(a.%s)' % f for f, ft in fields)))
+            ctor_args = ['to_real(a.%s)' % f for f, ft in fields]
+            if m.replace('struct ', '') == 'BSplineGenerator':
+                # the public constructor takes (knots, grid); the fields are declared (_grid, _knots)
+                ctor_args = ['to_real(a._knots)', 'to_real(a._grid)']
+            out.append('%s to_real(const %s &a) { return %s(%s); }' % (rt, m, rt, ', '.join(ctor_args)))
             out.append('%s from_real(const %s &a) { %s r; %s return r; }' % (m, rt, m, ' '.join('r.%s = from_real(a.%s);' % (f, f) for f, ft in fields)))
     return '\n'.join(decl) + '\n' + '\n'.join(out) + '\n'
 
@@ -326,6 +330,9 @@ def cxx_call(u, fi):
     for nm, t, pid in fi.params:
         args.append('std::move(%s_r)' % nm if t.ref == '&&' else '%s_r' % nm)
     targs = [u._targ(c) for c in d.get('inner', []) if c.get('kind') == 'TemplateArgument']
+    # trailing non-type arguments of enable_if parameters (printed as true / -1) are left to their defaults
+    while targs and not hasattr(targs[-1], 'name') and str(targs[-1]) in ('-1', 'true', 'True', '1') and len(targs) > len(fi.params):
+        targs.pop()
     ta = ''
     if targs and not name.startswith('operator'):
         ta = '<' + ', '.join(cxx_type(u, a) for a in targs) + '>'
@@ -451,7 +458,18 @@ def build_and_run(rec, r, o, blocks, bsv):
         rec['replay_note'] = 'lemma over contracts: no code is executed, nothing to replay'
         return False
     clause = re.sub(r'^__CPROVER_ensures\((.*)\)$', r'\1', rec['clause'].strip())
-    if not rec['clause'].strip().startswith('__CPROVER_ensures') and 'postcondition' not in (o['id'] or ''):
+    if re.search(r'\.(loop_invariant_base|loop_invariant_step|loop_decreases|loop_assigns|loop_step_unwinding)\.', o['id'] or ''):
+        # a loop obligation has no counterpart in the loop-free replay instance (loops are unwound there): the replay looks
+        # for an input on which ANY postcondition of the same function fails, and the native program checks them all
+        ens = [re.sub(r'^__CPROVER_ensures\((.*)\)$', r'\1', t) for kind, tags, t in bsv.clause_lines(b, enforce=True)
+               if kind == 'ensures' and '__CPROVER_forall' not in t and '__CPROVER_exists' not in t and '__CPROVER_old' not in t]
+        if not ens:
+            rec['replay_note'] = 'a loop obligation failed and the block has no quantifier-free postcondition to replay against'
+            return False
+        clause = ' && '.join('(%s)' % e for e in ens)
+        o = dict(o, replay_any_postcondition=True)
+        rec['replay_target'] = 'any postcondition of %s (the failed obligation is a loop obligation)' % b.fn
+    elif not rec['clause'].strip().startswith('__CPROVER_ensures') and 'postcondition' not in (o['id'] or ''):
         # a safety obligation inside the body (bounds, STL precondition, overflow): natively it is undefined
         # behaviour, not a checkable clause; the replay evaluates "the call completes" under the sanitizers
         clause = None
@@ -504,11 +522,18 @@ def one_phase(rec, r, o, blocks, bsv, clause, concretise, notes):
     names = {'self', 'bs_tape', 'BS_GRIDMEM', 'BS_GEQ', 'gq', 'gj', 'gk', 'gi', 'gw', 'gu', 'gx'} | {nm for nm, ct in inputs}
     vals = None
     procs = []
+    if o.get('replay_any_postcondition'):
+        targets = [x for x in bsv.list_properties(base + '.b.gb') if x.startswith(b.fn + '.postcondition.')]
+    else:
+        targets = [o['id']]
+    pargs = []
+    for x in targets:
+        pargs += ['--property', x]
     for solver in ('cvc5', 'z3'):
         f = open('%s.trace.%s.json' % (base, solver), 'w')
         p = subprocess.Popen(['bash', '-c', 'ulimit -v %d; exec "$@"' % bsv.MEMLIMIT_KB, 'sh', 'cbmc', '--' + solver] + bsv.CBMC_FLAGS +
-                             ['--trace', '--json-ui', '--property', o['id'], base + '.b.gb'], stdout=f, stderr=subprocess.DEVNULL,
-                             start_new_session=True)
+                             ['--trace', '--json-ui'] + pargs + [base + '.b.gb'], stdout=f, stderr=subprocess.DEVNULL,
+                             start_new_session=True, env=dict(os.environ, TMPDIR=os.path.dirname(base)))
         procs.append((solver, p, f))
     import time as _t
     t0 = _t.time()
